@@ -69,6 +69,12 @@ func RaceWorker(reps int) {
 					for _, op := range ops {
 						want := contentOf(op.Key)
 						switch op.Kind {
+						case "put2":
+							if s.Put(ctx, op.Key, altContentOf(op.Key)) == nil {
+								mu.Lock()
+								acked[op.Key] = true
+								mu.Unlock()
+							}
 						case "put":
 							if s.Put(ctx, op.Key, append([]byte(nil), want...)) == nil {
 								mu.Lock()
@@ -88,7 +94,7 @@ func RaceWorker(reps int) {
 								mu.Unlock()
 							}
 						case "get":
-							if got, err := s.Get(ctx, op.Key); err == nil && !bytes.Equal(got, want) {
+							if got, err := s.Get(ctx, op.Key); err == nil && !isContentOf(op.Key, got) {
 								mu.Lock()
 								bad = append(bad, fmt.Sprintf("Get(%q) returned %q, not its content", op.Key, got))
 								mu.Unlock()
@@ -111,7 +117,7 @@ func RaceWorker(reps int) {
 					switch {
 					case err != nil && acked[k]:
 						bad = append(bad, fmt.Sprintf("acknowledged key %q is absent afterwards", k))
-					case err == nil && !bytes.Equal(got, contentOf(k)):
+					case err == nil && !isContentOf(k, got):
 						bad = append(bad, fmt.Sprintf("key %q holds %q afterwards", k, got))
 					}
 				}
